@@ -368,6 +368,14 @@ end''')(lua.table_from(forb), env["pcall"])
 
 
 # ------------------------------------------------------------------ attacks
+IMPOSTOR = r"""
+local stash = {raw_pcall = _raw_pcall, append_env = _python_append_env, top_env = _python_top_env, set_timeout = _lua_set_timeout,
+               clear_timeout = _lua_clear_timeout_hook, reset_env = _lua_reset_env}
+local real = assert(_new_loader("_sandbox\1_phasePHASE", _G))
+local ret = real()
+_G._leak = stash
+return ret
+"""
 SHADOW = {}      # attack name -> pages of a hostile store added (uncommitted, in the attack's own forked child) first
 
 
@@ -440,6 +448,12 @@ end
     add("internal-functions", "for _, n in ipairs({'_python_append_env','_python_top_env','_lua_reset_env','_lua_set_python_loader','_cached_mod','_new_loader','_save_mod','_lua_set_timeout','_lua_clear_timeout_hook','_raw_pcall'}) do if _G[n] ~= nil then out = out .. n .. ';' end end "
         "pcall(function() for i = 1, 3 do _python_append_env({}) end end) pcall(function() _save_mod('Module:ok', {f = function() return 'FORGED' end}) end) pcall(function() _save_mod('ok', {f = function() return 'FORGED' end}) end) "
         "pcall(function() _lua_set_python_loader(function(name) return 'return {f = function() return \\'FORGED\\' end}' end) end)")
+    # a hostile store page that takes the place of a sandbox bootstrap file (the title under which lua_loader looks
+    # "_sandbox_phaseN" up has blanks for the underscores): it would run with the privileged phase-1 functions around
+    for ph in ("1", "2"):
+        nm = "impostor-sandbox-phase" + ph
+        SHADOW[nm] = [("Module: sandbox phase" + ph, IMPOSTOR.replace("PHASE", ph)), ("Module:_sandbox_phase" + ph, IMPOSTOR.replace("PHASE", ph))]
+        add(nm, "if _leak then out = out .. 'PRIVILEGED;' pcall(function() _leak.append_env('X') _leak.append_env('X') end) pcall(function() local ok, e = _leak.raw_pcall(mw_jsondecode_python, '{', 0) out = out .. errdamage(e, 'lk') end) end")
     add("getfenv-levels", "if getfenv then for lv = 0, 6 do pcall(function() out = out .. damage(getfenv(lv), 'gf' .. lv) end) local ok, g = pcall(getfenv, lv) if ok then out = out .. damage(g, 'gfp' .. lv) end end end")
     add("loaddata-env", "local ok, d = pcall(mw.loadData, '%s:dat') if ok then out = out .. damage(getmetatable(d), 'ldm') end" % mod_ns)
     add("debug-lib", "if debug then for _, n in ipairs({'getinfo','getupvalue','getregistry','sethook','getfenv','setmetatable','getmetatable'}) do if debug[n] then out = out .. 'debug.' .. n .. ';' end end pcall(function() local r = debug.getregistry() out = out .. damage(r, 'reg') end) end")
@@ -490,6 +504,15 @@ def run_attacks(spec, obs):
             if pid == 0:
                 os.close(r)
                 try:
+                    if name.startswith("impostor-"):
+                        # these pages must be in the store BEFORE the context initialises its Lua runtime: use a
+                        # context of its own, created here in the child
+                        cm2 = fresh(lua=True)
+                        ctx = cm2.__enter__()
+                        ctx.add_page("Module:att " + name.replace("_", "-"), 828,
+                                     src.replace("PWNFILE", json.dumps(pwn)).replace("HOSTLUA", "(" + json.dumps(hostlua) + ")").replace("LNKPATH", "(" + json.dumps(lnk.lstrip("/")) + ")"),
+                                     model="Scribunto")
+                        ctx.add_page("Module:ok", 828, "local e = {}\nfunction e.f(fr) return 'ok' end\nreturn e", model="Scribunto")
                     for t, b in SHADOW.get(name, []):
                         ctx.add_page(t, 828, b, model="Scribunto")
                     if name in SHADOW:
@@ -497,6 +520,9 @@ def run_attacks(spec, obs):
                             type(ctx).get_page.cache_clear()
                         except AttributeError:
                             pass
+                    if name.startswith("impostor-"):
+                        ctx.start_page("Pg")
+                        ctx.expand("{{#invoke:ok|f}}")      # the runtime's own bootstrap write happens here
                     npages0 = ctx.db_conn.execute("SELECT count(*), coalesce(sum(length(body)),0) FROM pages").fetchone()
                     fields0 = (ctx.lang_code, ctx.project, str(ctx.db_path))
                     ctx.start_page("Pg")
@@ -525,6 +551,7 @@ def run_attacks(spec, obs):
                            "host-global-set": G["PWNED_GLOBAL"] is not None,
                            "context-stacks-changed(expand_stack,lua_env_stack,lua_frame_stack)": stacks_after != stacks_before,
                            "later-invocation-on-the-context-altered": follow != "ok",
+                           "privileged-sandbox-functions-obtained": "PRIVILEGED;" in out,
                            "python-exception-object-obtained": "PYEXC;" in out,
                            "lupa-bridge-metatable-obtained": "BRIDGEMT;" in out,
                            "lupa-bridge-metatable-written": "BRIDGEMT-WRITTEN;" in out,
